@@ -8,7 +8,7 @@ CLAUSES = ["C12_Residual", "C12_History", "C12_FixedPoint", "C12_ExplicitStep", 
 
 def run(tier, seed):
     return opscheck.run_property(
-        "C12", tier, seed, clauses_for=lambda cfg: CLAUSES, n_quick=8, n_thorough=80,
+        "C12", tier, seed, clauses_for=lambda cfg: CLAUSES, n_quick=16, n_thorough=160,
         gen_kw=[{}, {"nmax": 2}], generator=solvedrive.gen_solve_config, observe=solvedrive.observe,
         rule="9 grid classes x seeded spatial term sets, BC kinds, alpha scalar or per cell, dt in {1/10,1,10,1000}: "
              "the backward-Euler residual alpha(new-old)/dt + A new = gamma is evaluated by TLC on the lifted solvePDE "
